@@ -360,6 +360,12 @@ func (g *Gen) oneOp(c, k string) (purged bool) {
 		if g.r.chance(25) {
 			amt = 0 // Incr by 0 is used as a read - it still writes (new CAS, event) when the counter exists
 		}
+		if g.r.chance(50) {
+			// a dedicated counter that only Incr touches: its increments always meet an existing number
+			k = "cnt"
+			l.Pos = []string{c, k}
+			defer g.rb(c, k)
+		}
 		l.add("amt", u(amt))
 		l.add("def", u(uint64(g.r.intn(100))))
 		l.add("exp", u(g.exp()))
